@@ -16,12 +16,15 @@ open Ari
 inductive ROp
   | req (item : String) (t : Task)        -- SUB / USB: lock section, then add section
   | reply (line : String)                 -- init reply to enqueue
+  | quit                                  -- honoured close request: `_RequestManager.quit()` (stop flag, stop pill, join the writer)
+  | poolShutdown                          -- then `executor.shutdown()` and the socket is closed
 deriving Repr
 
 inductive WPc
   | get
   | send (msg : String)
-  | stopped
+  | stopped                               -- took the stop pill
+  | failed                                -- a write raised: reported, the writer left its loop
 deriving Repr, DecidableEq
 
 structure DState where
@@ -39,7 +42,8 @@ structure DState where
   /-- reader is between the two lock sections for this item -/
   rmid : Option String := none
   initExpected : Bool := true
-  sendQ : List String := []
+  /-- the send queue; `none` is the stop pill of `_Sender.quit()` -/
+  sendQ : List (Option String) := []
   /-- threads whose listener call read a live id but whose payload cannot be encoded: `on_exception` runs, and with
       the default handling a failure notification is about to be enqueued by that thread -/
   pendFal : List String := []
@@ -50,6 +54,18 @@ structure DState where
   mpc : Nat := 0
   wpc : WPc := .get
   written : List String := []
+  /-- `ExceptionHandler.handle_ioexception`: `none` = no handler installed, `some r` = installed and returns truthiness `r` -/
+  ioHandler : Option Bool := none
+  /-- progress of `Server.close()` on the reader thread (0 = not called, 1 = stop pill enqueued / joining the writer,
+      2 = writer joined / waiting for the pool, 3 = pool shut down, socket closed, reader gone) -/
+  cpc : Nat := 0
+  sockClosed : Bool := false
+  /-- the peer has closed / reset the connection: `recv` fails once the delivered bytes are consumed -/
+  inEnd : Bool := false
+  /-- `os._exit` ran -/
+  exited : Bool := false
+  /-- ghost: I/O-handler notifications -/
+  nio : Nat := 0
 
 def getItem (s : DState) (x : String) : IState :=
   match s.items.find? (·.1 = x) with
@@ -67,6 +83,10 @@ inductive GEff
   | adapterBegin (m : AMethod) (item : String)
   | adapterEnd (m : AMethod) (item : String)
   | sent (bytes : String)
+  | enqueuePill
+  | sockClose
+  | ioHandler
+  | exit
 deriving Repr
 
 /-- apply an item step and lift its effects. -/
@@ -77,7 +97,7 @@ def liftItem (s : DState) (x : String) (a : IAct) : Option (DState × List GEff)
     let s1 := putItem s x i'
     let (s2, geffs) := effs.foldl (fun (acc : DState × List GEff) e =>
       match e with
-      | .enqueue l => ({ acc.1 with sendQ := acc.1.sendQ ++ [l] }, acc.2 ++ [.enqueue l])
+      | .enqueue l => ({ acc.1 with sendQ := acc.1.sendQ ++ [some l] }, acc.2 ++ [.enqueue l])
       | .submit k =>
         let n := acc.1.tasks.length + 1
         ({ acc.1 with tasks := acc.1.tasks ++ [(x, k)], workQ := acc.1.workQ ++ [n] }, acc.2 ++ [.submit n])
@@ -96,6 +116,10 @@ def lineOps (s : DState) (line : String) : List ROp × Bool :=
         let o := onInit ⟨.dataK, prs, none, none, true, none, none, .ret .none, .ret .none⟩
         ([.reply (id ++ "|" ++ o.reply)], false)
       | _ => ([], false)
+    else if m = "CLOSE" ∧ id = "0" ∧ !s.initExpected then
+      -- an honoured close request (the agreed version 1.8.3 supports close packets; the scenarios send it last, with a
+      -- well-formed parameter map)
+      ([.quit, .poolShutdown], false)
     else if (m = "SUB" ∨ m = "USB") ∧ !s.initExpected then
       match decodeRequest m toks with
       | some (.ok ⟨[.str (some item)], _⟩) => ([.req item ⟨id, m = "SUB"⟩], false)
@@ -110,6 +134,10 @@ inductive OpClass
   | lsnPutOp                       -- enqueue made by a listener method
   | failurePut (msg : String)      -- `listener.failure(exc)`: the FAL notification is enqueued (no lock, no item)
   | excFailurePut (msg : String)   -- default exception handling after an ill-typed listener payload: FAL enqueued
+  | join                           -- the reader's `join()` of the writer thread returns
+  | poolWait                       -- the reader's `executor.shutdown()` returns
+  | endOfInput                     -- the peer closes / resets the connection (environment)
+  | sendFail                       -- the writer's `sendall` raises (environment decides which write)
 deriving Inhabited
 
 /-- a listener call that reads a live id but whose payload has a value of an unsupported type: no event line;
@@ -119,11 +147,23 @@ def markFal (s : DState) (tid item : String) (kind : LKind) : DState :=
   | some id => if (eventLine item id kind).isNone then { s with pendFal := s.pendFal ++ [tid] } else s
   | none => s
 
+/-- `on_ioexception` on the failing thread. -/
+def gioEffects (s : DState) : List GEff :=
+  match s.ioHandler with
+  | none => [.exit]
+  | some r => .ioHandler :: (if r then [.exit] else [])
+
+def gioReport (s : DState) : DState :=
+  { s with nio := s.nio + (if s.ioHandler.isSome then 1 else 0),
+           exited := (match s.ioHandler with | none => true | some r => r) }
+
 /-- one chunk of thread `tid` (`R`, `W`, `P`, `T<n>`, `E<n>`), `item` given for listener calls of E threads. -/
 def gstep (s : DState) (tid : String) (op : OpClass) (lsnItem : String) : Option (DState × List GEff) :=
+  if s.exited then none else
   if tid = "P" then
     match op with
-    | .deliver c => some ({ s with inbound := s.inbound ++ [c] }, [])
+    | .deliver c => if s.inEnd then none else some ({ s with inbound := s.inbound ++ [c] }, [])
+    | .endOfInput => some ({ s with inEnd := true }, [])
     | _ => none
   else if tid = "M" then
     -- Server.start(): the credentials message is enqueued before the reader thread exists
@@ -131,22 +171,34 @@ def gstep (s : DState) (tid : String) (op : OpClass) (lsnItem : String) : Option
     | .threadStart, 0 => some ({ s with mpc := 1, wst := 1 }, [])
     | .put, 1 =>
       let l := "1|" ++ writeCredentials s.user s.password
-      some ({ s with sendQ := s.sendQ ++ [l], mpc := 2, rst := 1 }, [.enqueue l])
+      some ({ s with sendQ := s.sendQ ++ [some l], mpc := 2, rst := 1 }, [.enqueue l])
     | _, _ => none
   else if tid = "R" then
     if s.rst = 1 then (match op with | .threadStart => some ({ s with rst := 2 }, []) | _ => none) else
-    if s.rst = 0 then none else
+    if s.rst = 0 ∨ s.rst = 3 ∨ s.rst = 4 then none else
     match op, s.rmid, s.rq with
     | .recv, none, [] =>
       match s.inbound with
-      | [] => none
+      | [] =>
+        -- EOF / reset: reported through `on_ioexception`; the reader leaves its loop (`rst = 4`)
+        if s.inEnd then some (gioReport { s with rst := 4 }, gioEffects s) else none
       | c :: rest =>
         let (lines, b) := feed s.rbuf c
         let (ops, ie) := lines.foldl (fun (acc : List ROp × Bool) l =>
           let (o, ie) := lineOps { s with initExpected := acc.2 } l
           (acc.1 ++ o, ie)) ([], s.initExpected)
         some ({ s with inbound := rest, rbuf := b, rq := ops, initExpected := ie }, [])
-    | .put, none, .reply l :: rest => some ({ s with rq := rest, sendQ := s.sendQ ++ [l] }, [.enqueue l])
+    | .put, none, .reply l :: rest => some ({ s with rq := rest, sendQ := s.sendQ ++ [some l] }, [.enqueue l])
+    | .put, none, .quit :: rest =>
+      some ({ s with rq := rest, sendQ := s.sendQ ++ [none], cpc := 1 }, [.enqueuePill])
+    | .join, none, .poolShutdown :: _ =>
+      if s.cpc = 1 ∧ (s.wpc = .stopped ∨ s.wpc = .failed) then some ({ s with cpc := 2 }, []) else none
+    | .poolWait, none, .poolShutdown :: _ =>
+      -- `executor.shutdown()` returns when nothing is queued or running; the socket is closed; the reader, its stop flag
+      -- set, leaves its loop (the close request is the last line the Proxy Adapter sends)
+      if s.cpc = 2 ∧ s.running = 0 ∧ s.workQ = [] then
+        some ({ s with cpc := 3, sockClosed := true, rq := [], rst := 3 }, [.sockClose])
+      else none
     | .mgrLock, none, .req x t :: rest =>
       match liftItem s x (.lockMgr t) with
       | some (s1, e) =>
@@ -165,17 +217,19 @@ def gstep (s : DState) (tid : String) (op : OpClass) (lsnItem : String) : Option
     match op, s.wpc with
     | .get _, .get =>
       match s.sendQ with
-      | m :: rest => some ({ s with sendQ := rest, wpc := .send m }, [])
+      | some m :: rest => some ({ s with sendQ := rest, wpc := .send m }, [])
+      | none :: rest => some ({ s with sendQ := rest, wpc := .stopped }, [])      -- the stop pill
       | [] => none
     | .send, .send m => some ({ s with wpc := .get, written := s.written ++ [m] }, [.sent (m ++ "\r\n")])
+    | .sendFail, .send _ => some (gioReport { s with wpc := .failed }, gioEffects s)   -- the message in hand is lost
     | _, _ => none
   else if (match op with | .failurePut _ => true | .excFailurePut _ => true | _ => false) then
     match op with
-    | .failurePut msg => let l := writeFailure msg; some ({ s with sendQ := s.sendQ ++ [l] }, [.enqueue l])
+    | .failurePut msg => let l := writeFailure msg; some ({ s with sendQ := s.sendQ ++ [some l] }, [.enqueue l])
     | .excFailurePut msg =>
       if s.pendFal.contains tid then
         let l := writeFailure msg
-        some ({ s with sendQ := s.sendQ ++ [l], pendFal := s.pendFal.erase tid }, [.enqueue l])
+        some ({ s with sendQ := s.sendQ ++ [some l], pendFal := s.pendFal.erase tid }, [.enqueue l])
       else none
     | _ => none
   else if tid.startsWith "T" then
@@ -219,11 +273,17 @@ def gstep (s : DState) (tid : String) (op : OpClass) (lsnItem : String) : Option
 
 /-- library threads that have an enabled step (R, W, T*), sorted as the harness sorts them. -/
 def genabled (s : DState) : List String :=
-  let r := if s.rst = 1 ∨ (s.rst = 2 ∧ (s.rmid.isSome ∨ !s.rq.isEmpty ∨ !s.inbound.isEmpty)) then ["R"] else []
+  if s.exited then [] else
+  let rgo : Bool := s.rmid.isSome || (match s.rq with
+    | [] => !s.inbound.isEmpty || s.inEnd
+    | .poolShutdown :: _ => (s.cpc = 1 ∧ (s.wpc = .stopped ∨ s.wpc = .failed)) ∨ (s.cpc = 2 ∧ s.running = 0 ∧ s.workQ = [])
+    | _ => true)
+  let r := if s.rst = 1 ∨ (s.rst = 2 ∧ rgo) then ["R"] else []
   let w := if s.wst = 0 then [] else if s.wst = 1 then ["W"] else match s.wpc with
     | .get => if s.sendQ.isEmpty then [] else ["W"]
     | .send _ => ["W"]
     | .stopped => []
+    | .failed => []
   let ts := (List.range s.tasks.length).filterMap fun idx =>
     match s.tasks[idx]? with
     | none => none
@@ -255,6 +315,7 @@ def gsnap (s : DState) : String :=
       ",gens=" ++ "".intercalate gens ++ "]"
   let sorted := its.toArray.qsort (· < ·) |>.toList
   "items:" ++ " ".intercalate sorted ++ "|pool:q=" ++ ",".intercalate (s.workQ.map fun n => "T" ++ toString n) ++
-    ";run=" ++ toString s.running ++ "|sendq=" ++ toString s.sendQ.length ++ "|init=" ++ showB s.initExpected
+    ";run=" ++ toString s.running ++ "|sendq=" ++ toString s.sendQ.length ++ "|init=" ++ showB s.initExpected ++
+    "|sock=" ++ (if s.sockClosed then "closed" else "open")
 
 end Ari.Conc
